@@ -90,9 +90,12 @@ def run(ctx):
   rule_universal(ctx)
   rule_excursion_gate(ctx, exact=True)     # C12: the p-values NIST assigns exist from exactly 500 cycles on (C13 only needs >= 500)
   rule_bits(ctx)
+  rule_overlap(ctx)
+  ctx.expect("R-C12-OVERLAP", 4, "transition matrix, distribution, tallies, defaults")
   # a local read on a path that has not bound it raises UnboundLocalError instead of producing the result (analysis shared with C18)
   from . import c18 as _c18
   n_def = _c18.rule_defined(ctx, "R-C12-DEFINED", "C12")
+  n_att = _c18.rule_attrs(ctx, "R-C12-ATTRS", "C12")
   ctx.expect("R-C12-DEFINED", 55, "functions of the statistical test modules")
   rule_range(ctx)
   rule_block(ctx)
@@ -101,7 +104,7 @@ def run(ctx):
   ctx.expect("R-C12-TEMPLATE", 3, "border test, default set, validation")
   ctx.expect("R-C12-LADDER", 4, "loop condition, guard agreement, matrix shape, block-frequency ladder")
   ctx.expect("R-C12-PURE", 56, "every function of the five modules behind the statistical tests")
-  ctx.expect("R-C12-FORMULA", 20, "statistic formulas of ten tests, compared at their sinks")
+  ctx.expect("R-C12-FORMULA", 22, "statistic formulas of ten tests, compared at their sinks")
   ctx.expect("R-C12-TABLES", 60, "17 longest-run + 6 + 33 rank + universal + 11 min_n + 14 linear complexity + 3 excursions")
   ctx.expect("R-C12-MINSIZE", 10, "nine InsufficientDataError guards + the 500-cycle gate of the excursion tests")
   ctx.expect("R-C12-CUSUM", 2, "two extrema")
@@ -1002,6 +1005,51 @@ def rule_formula(ctx):
           if not nz:
             probs.append("ln(c/n) is taken without excluding c = 0")
     ctx.record(R, f.where, "phi = sum (c/n) ln(c/n) over non-zero counts", not probs, "; ".join(sorted(set(probs))) or "2.12.4 (3)-(4): n = sum of the counts, zero counts skipped")
+  # ---- util.Runs: the number of runs is the number of positions where neighbouring bits differ, plus one when the top bit (position length-1) is 0
+  f = repo.func("randomness_tests.util", "Runs")
+  w = sym.Walker(repo, f)
+  w.run()
+  s_, ln_ = P("param", f.params()[0]), P("param", f.params()[1])
+  base = _call(U + "BitCount", sym.mk("bxor", *sorted([s_, sym.mk("shr", s_, _c(1))], key=repr)))
+  top0 = ("cmp", "Eq", sym.mk("shr", s_, ln_ - 1), 0)
+  probs = []
+  rets = [t_ for t_ in w.terminals if t_[0] == "return"]
+  seen = set()
+  for kind, val, st_ in rets:
+    extra = as_poly(val) - base if isinstance(val, Poly) else None
+    plus = extra is not None and extra.as_int() == 1
+    same = extra is not None and extra.is_zero()
+    has_top0 = any(fc[0] == "cmp" and fc[1] == "Eq" and isinstance(fc[2], Poly) and fc[2] == top0[2] and as_poly(fc[3]).is_zero() for fc in st_.facts)
+    nonempty = any((fc[0] == "truthy" and isinstance(fc[1], Poly) and fc[1] == ln_) or (fc[0] == "cmp" and fc[1] in ("Gt", "NotEq") and isinstance(fc[2], Poly) and fc[2] == ln_ and as_poly(fc[3]).is_zero()) for fc in st_.facts)
+    if plus and has_top0 and nonempty:
+      seen.add("plus")
+    elif same and not (has_top0 and nonempty):
+      seen.add("same")
+    else:
+      probs.append("a path returns %r %s" % (val, "with a leading 0 bit" if has_top0 else "without a leading 0 bit"))
+  if not probs and seen != {"plus", "same"}:
+    probs.append("the leading-zero correction is missing")
+  ctx.record(R, f.where, "runs = popcount(s ^ (s >> 1)) + [bit length-1 is 0]", not probs, "; ".join(sorted(set(probs))) or "2.3.4: V_n(obs) counted as bit changes, corrected for a sequence that starts with 0")
+  # ---- util.Dft: the moduli of the n-point transform of the n input values (3.6: f_j = sum_k x_k e^(2 pi i (k-1) j / n)) - no padding, no truncation
+  f = repo.func("randomness_tests.util", "Dft")
+  w = sym.Walker(repo, f)
+  w.run()
+  xs_ = P("param", f.params()[0])
+  probs = []
+  rets = [t_[1] for t_ in w.terminals if t_[0] == "return"]
+  ffts = [e for e in w.events if e.kind == "call" and e.data["name"].startswith("ext:") and e.data["name"].split(".")[-1] in ("fft", "rfft", "fft'")]
+  if len(rets) != 1 or not isinstance(rets[0], Poly):
+    probs.append("expected one return value")
+  else:
+    a_ = rets[0].as_atom()
+    inner = as_poly(a_.args[1]).as_atom() if a_ is not None and a_.kind == "extcall" and repr(a_.args[0]) in ("lit('numpy.abs')", "lit('numpy.absolute')") and len(a_.args) >= 2 else None
+    if inner is None or inner.kind != "extcall" or not repr(inner.args[0]).endswith(".fft')") or as_poly(inner.args[1]) != xs_:
+      probs.append("the result is %r, not |fft(x)|" % (rets[0],))
+    for e in w.events:
+      if e.kind == "call" and e.data["name"].startswith("ext:") and e.data["name"].endswith(".fft"):
+        if len(e.data["args"]) != 1 or e.data["kwargs"]:
+          probs.append("the transform is given a length / axis argument: a padded or truncated transform samples other frequencies")
+  ctx.record(R, f.where, "moduli of the n-point DFT of the input", not probs, "; ".join(sorted(set(probs))) or "3.6: numpy.abs(fft(x)), transform length = len(x)")
   # ---- NormalCdf
   f = repo.func("randomness_tests.util", "NormalCdf")
   w = sym.Walker(repo, f)
@@ -1975,3 +2023,163 @@ def rule_block(ctx):
   if not calls or not all(isinstance(e.data["args"][2], Poly) and isinstance(after, Poly) and e.data["args"][2] == sym.mk("max", Poly.const(20), after) for e in calls):
     probs.append("the block size is not max(20, m)")
   ctx.record(R, f.where, "block size ladder: doubled while n // m >= 100, at least 20", not probs, "; ".join(sorted(set(probs))) or "M = max(20, least 16 * 2^j with n // M < 100)")
+
+
+# ------------------------------------------------------------------ OVERLAP (overlapping template matching, 2.8)
+def rule_overlap(ctx):
+  """The overlapping-template p-value is a chi-square of the tallies against the exact distribution of the number of (overlapping) runs of m ones in a
+  block, computed from a Markov chain.  Decided on structure: (1) the transition matrix (write table, instantiated at (m, k) = (2,2), (3,2), (2,3)) is the
+  chain 'state = occurrences * m + current run, capped': a 0 bit goes to (occurrences, 0), a 1 bit lengthens the run, and at run m-1 counts one more
+  occurrence keeping the run (absorbing once k occurrences are reached); (2) the distribution is the block sums of row 0 of the n-th matrix power, one
+  per occurrence count 0..k; (3) the test tallies min(K, count) with K = 5 over the blocks, takes the distribution for the block length and K and returns
+  ChiSquare(tallies, distribution, K); (4) defaults m = 9, block length 2^(m+1) + m - 1 (= 1032), each block cut by SplitSequence."""
+  from pcstatic import wtable
+  R = "R-C12-OVERLAP"
+  repo = ctx.repo
+  U = "randomness_tests.util:"
+  # ---- (1) matrix
+  f = repo.func(MOD, "OverlappingTemplateMatchingMatrix")
+  w = sym.Walker(repo, f)
+  w.run()
+  pm, pk = P("param", f.params()[0]), P("param", f.params()[1])
+  probs, und = [], None
+  rets = [t_ for t_ in w.terminals if t_[0] == "return" and wtable.feasible(t_[2])]
+  if not rets:
+    und = "no matrix is returned"
+  HALF, ONE = P("lit", "0.5"), P("lit", "1.0")
+  for kind, val, st in rets:
+    try:
+      tab = wtable.extract(w, st, val)
+      for m_, k_ in ((2, 2), (3, 2), (2, 3)):
+        grid = wtable.instantiate(tab, [(pm.as_atom(), m_), (pk.as_atom(), k_)])
+        size = k_ * m_ + 1
+        zero = Poly.const(0)
+        spec = [[zero] * size for _ in range(size)]
+        for occ in range(k_):
+          for run in range(m_):
+            i = occ * m_ + run
+            spec[i][occ * m_] = spec[i][occ * m_] + HALF
+            if run + 1 < m_:
+              j = i + 1
+            elif occ + 1 < k_:
+              j = (occ + 1) * m_ + run
+            else:
+              j = k_ * m_
+            spec[i][j] = spec[i][j] + HALF
+        spec[k_ * m_][k_ * m_] = ONE
+        bad = None
+        if len(grid) != size or any(len(r_) != size for r_ in grid):
+          bad = "shape %dx%d, expected %dx%d" % (len(grid), len(grid[0]) if grid else 0, size, size)
+        else:
+          for i in range(size):
+            for j in range(size):
+              if bad is None and not (as_poly(grid[i][j]) - as_poly(spec[i][j])).is_zero():
+                bad = "P[state %d -> state %d] is %r, the chain has %r" % (i, j, grid[i][j], spec[i][j])
+        if bad:
+          probs.append("m = %d, k = %d: %s" % (m_, k_, bad))
+          break
+    except Incomplete as ex:
+      und = str(ex)
+    except IndexError as ex:
+      probs.append(str(ex))
+  if und:
+    ctx.incomplete(R, f.where, "transition matrix of the run-counting chain", und)
+  else:
+    ctx.record(R, f.where, "transition matrix of the run-counting chain", not probs, "; ".join(sorted(set(probs))) or
+               "0 bit -> (occ, 0); 1 bit -> run + 1, or one more occurrence at run m-1; absorbing at k occurrences; checked at (m, k) = (2,2), (3,2), (2,3)")
+  # ---- (2) distribution
+  f = repo.func(MOD, "OverlappingTemplateMatchingDistribution")
+  w = sym.Walker(repo, f)
+  w.run()
+  pn, pm, pk = (P("param", x) for x in f.params()[:3])
+  probs = []
+  rets = [t_[1] for t_ in w.terminals if t_[0] == "return"]
+  mat = _call(MOD + ":OverlappingTemplateMatchingMatrix", pm, pk)
+  ok_ = False
+  for v in rets:
+    a_ = as_poly(v).as_atom() if isinstance(v, Poly) else None
+    if a_ is None or a_.kind != "map" or len(a_.args) != 3:
+      continue
+    bv = Poly.atom(a_.args[1])
+    src = as_poly(a_.args[2]).as_atom()
+    el = as_poly(a_.args[0]).as_atom()
+    if src is None or src.kind != "range" or [repr(as_poly(x)) for x in src.args] != [repr(pk + 1)]:
+      probs.append("the distribution does not have one entry per occurrence count 0 .. k")
+      continue
+    if el is None or el.kind != "sum":
+      probs.append("an entry is not a sum of state probabilities")
+      continue
+    sl = as_poly(el.args[0]).as_atom()
+    if sl is None or sl.kind != "slice" or not ((as_poly(sl.args[1]) - bv * pm).is_zero() and (as_poly(sl.args[2]) - (bv + 1) * pm).is_zero() and repr(sl.args[3]) == "lit('None')"):
+      probs.append("entry i does not sum the states i*m .. (i+1)*m - 1")
+      continue
+    row = as_poly(sl.args[0]).as_atom()
+    pw = as_poly(row.args[0]).as_atom() if row is not None and row.kind == "idx" and as_poly(row.args[1]).is_zero() else None
+    if pw is None or pw.kind != "extcall" or "matrix_power" not in repr(pw.args[0]) or as_poly(pw.args[1]) != mat or as_poly(pw.args[2]) != pn:
+      probs.append("the state probabilities are not row 0 (start state) of the n-th power of the transition matrix for (m, k)")
+      continue
+    ok_ = True
+  if not ok_ and not probs:
+    probs.append("the distribution is not [sum(row_0[i*m:(i+1)*m]) for i in 0..k]")
+  ctx.record(R, f.where, "distribution = block sums of row 0 of M^n", not probs, "; ".join(sorted(set(probs))) or "pi_i = P[i occurrences] for i < k, pi_k = P[>= k]")
+  # ---- (3) the test
+  f = repo.func(MOD, "OverlappingTemplateMatchingImpl")
+  w = sym.Walker(repo, f)
+  w.run()
+  blocks, pn, pm = (P("param", x) for x in f.params()[:3])
+  probs = []
+  rets = [t_[1] for t_ in w.terminals if t_[0] == "return"]
+  K = 5
+  loops = [li for li in w.loop_info.values() if li["visits"] and isinstance(li["visits"][0]["iter"], Poly) and li["visits"][0]["iter"] == blocks]
+  if len(loops) != 1 or len(rets) != 1:
+    ctx.record(R, f.where, "tallies of min(5, count) against the distribution", None, "expected one loop over the blocks and one result")
+  else:
+    li = loops[0]
+    vis = li["visits"][0]
+    cnt = _call(U + "OverlappingRunsOfOnes", sym.mk("idx", blocks, as_poly(vis["k"])), pm)
+    sts = [e for e in w.events if e.kind == "store" and li["node"] in [None] + [n_ for n_ in ast.walk(li["node"])] and any(x is e.node for x in ast.walk(li["node"]))]
+    tv = None
+    for e in sts:
+      idx_ = as_poly(e.data["index"])
+      want_i = sym.mk("min", *sorted([Poly.const(K), cnt], key=repr))
+      alt_i = sym.mk("min", Poly.const(K), cnt)
+      if not ((idx_ - want_i).is_zero() or (idx_ - alt_i).is_zero() or idx_ == sym.mk("min", cnt, Poly.const(K))):
+        probs.append("a block is tallied under %r, not under min(5, number of runs of m ones)" % (idx_,))
+      if not (as_poly(e.data["value"]) - sym.mk("idx", as_poly(e.data["base"]), idx_) - 1).is_zero():
+        probs.append("a tally is not incremented by one")
+      tv = [n_ for n_, x_ in vis["head"].env.items() if isinstance(x_, Poly) and x_ == as_poly(e.data["base"])]
+    if not sts:
+      probs.append("no tally is kept per block")
+    if tv:
+      pre = vis["pre_env"].get(tv[0])
+      if not (isinstance(pre, Poly) and pre == sym.mk("listrep", P("seq", Poly.const(0)), Poly.const(K + 1))):
+        probs.append("the tallies do not start as %d zeros" % (K + 1))
+      after = vis["after_env"].get(tv[0])
+      want = _call(MOD + ":ChiSquare", after, _call(MOD + ":OverlappingTemplateMatchingDistribution", pn, pm, Poly.const(K)), Poly.const(K))
+      if not (isinstance(rets[0], Poly) and isinstance(after, Poly) and rets[0] == want):
+        probs.append("the result is %r, not ChiSquare(tallies, Distribution(block length, m, 5), 5)" % (rets[0],))
+    for kind, val, st_, since, v_ in li["body_paths"]:
+      if v_ is vis and kind not in ("fall", "continue"):
+        probs.append("the loop over the blocks is left early")
+    ctx.record(R, f.where, "tallies of min(5, count) against the distribution", not probs, "; ".join(sorted(set(probs))) or "2.8.4 with K = 5: v[min(5, W_j)] += 1; chi-square against pi(block length, m, 5)")
+  # ---- (4) defaults and block cutting
+  f = repo.func(MOD, "OverlappingTemplateMatching")
+  w = sym.Walker(repo, f)
+  w.run()
+  bits, pn, pm, pb = (P("param", x) for x in f.params()[:4])
+  probs = []
+  n_ret = 0
+  for kind, val, st in w.terminals:
+    if kind != "return":
+      continue
+    n_ret += 1
+    m_none = any(fc[0] == "cmp" and fc[1] == "Is" and isinstance(fc[2], Poly) and fc[2] == pm for fc in st.facts)
+    b_none = any(fc[0] == "cmp" and fc[1] == "Is" and isinstance(fc[2], Poly) and fc[2] == pb for fc in st.facts)
+    M_ = Poly.const(9) if m_none else pm
+    B_ = (sym.mk("pow", Poly.const(2), M_ + 1) + M_ - 1) if b_none else pb
+    want = _call(MOD + ":OverlappingTemplateMatchingImpl", _call(U + "SplitSequence", bits, pn, B_), B_, M_)
+    if not (isinstance(val, Poly) and val == want):
+      probs.append("with m %s and block_size %s the result is %r" % ("defaulted" if m_none else "given", "defaulted" if b_none else "given", val))
+  if n_ret < 4:
+    probs.append("fewer than four parameter combinations")
+  ctx.record(R, f.where, "defaults m = 9, block length 2^(m+1) + m - 1; blocks cut at that length", not probs, "; ".join(sorted(set(probs))) or "2.8.7: m = 9, M = 1032; Impl(SplitSequence(bits, n, M), M, m)")
